@@ -44,6 +44,7 @@ REQUIRED_CLASSES = ["node:builtin:abs", "node:builtin:round", "node:builtin:roun
                     "node:call", "node:call+kwargs", "node:computed-key", "node:literal-expr", "node:un:-", "node:un:~",
                     "node:eq", "node:bin:arith", "follow-up:orig:setv", "follow-up:copy:setv", "follow-up:both:sete",
                     "default-container:items-and-attributes-mixed", "default-container:frozen-when-pickled",
+                    "default-container:empty-when-pickled",
                     "default-container:setter-generated-before-pickling"]
 
 TEMPLATES = ["abs", "round0", "round1", "round_ref", "divmod", "divmod_ref", "floor", "ceil", "trunc", "neg", "pos",
@@ -387,7 +388,12 @@ def dc_cases(draw):
     # the manager may be FROZEN when it is pickled (the copy must then reject what the original rejects), and a setter
     # function may have been generated from it before (gen_fun must leave nothing unpicklable behind); the follow-up then
     # also calls the setters of both managers and may unfreeze both
-    c["frozen"] = draw(st.integers(0, 3)) == 0
+    # one case in five pickles the manager while the container is still EMPTY (everything is assigned afterwards)
+    if draw(st.integers(0, 4)) == 0:
+        c["empty_when_pickled"] = True
+        c["after"] = [dict(s, who="both") for s in c["before"]] + c["after"]
+        c["before"] = []
+    c["frozen"] = draw(st.integers(0, 3)) == 0 and not c.get("empty_when_pickled")
     c["genfun"] = access() if draw(st.integers(0, 2)) == 0 else None
     extra = []
     if c["frozen"] and draw(st.booleans()):
@@ -452,8 +458,11 @@ def dc_exec(ctx, case):
     classes = ["default-container"]
     m = xdeps.Manager()
     r = m.ref(label="r")
-    for k, v in case["init"].items():
-        r[k] = v
+    if case.get("empty_when_pickled"):
+        classes.append("default-container:empty-when-pickled")
+    else:
+        for k, v in case["init"].items():
+            r[k] = v
     try:
         for stm in case["before"]:
             run(r, stm)
